@@ -286,13 +286,12 @@ class SmallVector {
       if (sz < N) {
         ptr = inlineData();
       } else {
-        growToHeap(N * 2);
-        ptr = storage_.heap_.ptr;
+        return emplaceBackGrow(N * 2, std::forward<Args>(args)...);
       }
     } else {
       size_type sz = rawSize();
       if (sz == storage_.heap_.capacity) {
-        growToHeap(storage_.heap_.capacity * 2);
+        return emplaceBackGrow(storage_.heap_.capacity * 2, std::forward<Args>(args)...);
       }
       ptr = storage_.heap_.ptr;
     }
@@ -424,6 +423,20 @@ class SmallVector {
 
   // Grow to heap storage with the specified capacity.
   // Moves existing elements, frees old heap if applicable, sets heap bit.
+  // Growth path of emplace_back. The arguments may refer to an element of this vector (e.g.
+  // v.push_back(v[0])), so the new element is constructed in the new storage before the old
+  // elements are moved out and the old storage is torn down.
+  template <typename... Args>
+  reference emplaceBackGrow(size_type newCap, Args&&... args) {
+    T* newData = allocHeap(newCap);
+    size_type idx = rawSize();
+    new (newData + idx) T(std::forward<Args>(args)...);
+    moveToHeap(newData, newCap);
+    ++size_;
+    assert(rawSize() > 0 && "Size overflow into heap bit");
+    return newData[idx];
+  }
+
   // Plain operator new only guarantees alignof(std::max_align_t); over-aligned element types
   // need an explicitly aligned allocation.
   static constexpr bool kOverAligned = alignof(T) > alignof(std::max_align_t);
@@ -443,7 +456,12 @@ class SmallVector {
   }
 
   void growToHeap(size_type newCap) {
-    T* newData = allocHeap(newCap);
+    moveToHeap(allocHeap(newCap), newCap);
+  }
+
+  // Moves the current elements into newData (capacity newCap), releases the old storage and
+  // switches to heap mode.
+  void moveToHeap(T* newData, size_type newCap) {
     T* oldData = data();
     size_type sz = rawSize();
 
